@@ -65,6 +65,11 @@ def r_contexts(ctx):
 
 
 def check(ctx):
+    from . import c07, layout
+    c07.r_shared_callee(ctx)
+    layout.r_btree(ctx, 'R02.8')
+    layout.r_partition(ctx, 'R02.9')
+    c07.r_value_to_structural(ctx, 'R02.10')
     satisfy.r_finalizers(ctx, 'R02.1f', check_pruned_values=True)
     ctx.rule('R02.1', 'every success path of satisfy_with_env finalizes with value pruning (finalize_pruned)')
     r_converters(ctx)
